@@ -274,6 +274,69 @@ def check(ctx):
     if not imp_ok:
         ctx.violation('C19.R4', BASE, f, Model.qual(f), 'import lists are no longer honoured', stmt='name not in imports')
 
+    # ---- R6: a lookup returns (what was found, the module it was found in).  Whatever is taken out of the found descriptor (its 'type', its members,
+    #      its parameters) must be resolved further *in the module it was found in*: a call that is handed something derived from the found descriptor
+    #      together with the module the lookup started from looks the next name up in the wrong module -- invisible while everything lives in one module.
+    ctx.rule('C19.R6', 'names taken from a looked-up descriptor are resolved in the module the lookup returned, not the module it started from')
+    n6 = 0
+    pair_lookups = set()
+    base_cls = model.cls(BASE, 'Compiler')
+    for nm, g_ in base_cls.methods.items():
+        rets = [r_ for r_ in walk_no_nested(g_) if isinstance(r_, ast.Return) and r_.value is not None]
+        if nm.startswith('lookup_') and rets:
+            pair_lookups.add(nm)
+    if len(pair_lookups) < 4:
+        raise AnalysisError('C19.R6: only %d lookup functions found in %s' % (len(pair_lookups), BASE))
+    for m_ in model.modules.values():
+        if not m_.rel.startswith('asn1tools/codecs/') and m_.rel != 'asn1tools/compiler.py':
+            continue
+        for g_ in [n for n in ast.walk(m_.tree) if isinstance(n, ast.FunctionDef)]:
+            for a_ in walk_no_nested(g_):
+                if not (isinstance(a_, ast.Assign) and isinstance(a_.value, ast.Call) and isinstance(a_.value.func, ast.Attribute)
+                        and a_.value.func.attr in pair_lookups and len(a_.targets) == 1):
+                    continue
+                call = a_.value
+                tgt = a_.targets[0]
+                if isinstance(tgt, ast.Name):
+                    # result = lookup(...);  X, M = result
+                    un = [b_ for b_ in walk_no_nested(g_) if isinstance(b_, ast.Assign) and isinstance(b_.value, ast.Name) and b_.value.id == tgt.id
+                          and isinstance(b_.targets[0], ast.Tuple) and len(b_.targets[0].elts) == 2 and b_.lineno > a_.lineno]
+                    if not un:
+                        continue
+                    tgt = un[0].targets[0]
+                if not (isinstance(tgt, ast.Tuple) and len(tgt.elts) == 2 and all(isinstance(e_, ast.Name) for e_ in tgt.elts)):
+                    continue
+                found, found_mod = tgt.elts[0].id, tgt.elts[1].id
+                start_mods = [x.id for x in call.args[1:] if isinstance(x, ast.Name)] + [k.value.id for k in call.keywords if isinstance(k.value, ast.Name)]
+                start_mods = [x for x in start_mods if x != found_mod and 'module' in x]
+                if found == '_' or not start_mods:
+                    continue       # descriptor dropped, or the module variable is re-bound by the lookup itself
+                n6 += 1
+                bad = None
+                for c_ in walk_no_nested(g_):
+                    if not (isinstance(c_, ast.Call) and c_ is not call and getattr(c_, 'lineno', 0) >= a_.lineno):
+                        continue
+                    argv = list(c_.args) + [k.value for k in c_.keywords]
+                    derived = [x for x in argv if found in names_in(x)]
+                    wrong = [x for x in argv if isinstance(x, ast.Name) and x.id in start_mods]
+                    if derived and wrong and not any(isinstance(x, ast.Name) and x.id == found_mod for x in argv):
+                        # error messages may name the starting module
+                        fn_ = ast.unparse(c_.func)
+                        if fn_.endswith('.format') or fn_ in ('CompileError', 'format') or fn_.endswith('Error'):
+                            continue
+                        bad = c_
+                        break
+                ctx.instance('C19.R6', '%s: `%s, %s = %s(...)` -- what is taken from `%s` is resolved with `%s`' % (Model.qual(g_), found, found_mod, call.func.attr, found, found_mod),
+                             'ok' if bad is None else 'VIOLATION', node=a_, file=m_.rel)
+                if bad is not None:
+                    ctx.violation('C19.R6', m_.rel, bad, Model.qual(g_),
+                                  '`%s` hands on something taken from the descriptor `%s` (found by %s in module `%s`) together with `%s`, the module the lookup started from: the next '
+                                  'reference is looked up in the referring module instead of the defining one, so a chain of references that crosses a module boundary resolves '
+                                  'differently from the same definitions written in one module' % (ast.unparse(bad)[:110], found, call.func.attr, found_mod, start_mods[0]),
+                                  stmt=norm_stmt(Model.enclosing_stmt(bad)))
+    if n6 < 2:
+        raise AnalysisError('C19.R6 examined only %d lookups whose module differs from the starting module (floor 2)' % n6)
+
     # ---- R5
     def key_chain(e):
         """keys used from self.compiled down to the innermost element: subscripts and .setdefault(k, ..)/.get(k) calls"""
@@ -408,3 +471,9 @@ REFACTORS = [
          new="""        if 'size' in member:
             compiled_member = copy(compiled_member)"""),
 ]
+MUTANTS.append(dict(name='COMPONENTS OF members expanded in the referring module instead of the defining one', file=BASE,
+                    old="""                inner_members = self.pre_process_components_of_expand_members(
+                    type_descriptor['members'],
+                    inner_module_name)""", new="""                inner_members = self.pre_process_components_of_expand_members(
+                    type_descriptor['members'],
+                    module_name)""", expect='C19.R6'))
